@@ -1122,6 +1122,19 @@ func dWrapItem(g *dGen, w int, atom *dStmt) *dStmt {
 	}
 }
 
+// genDslSlice: n random registration programs (nested groups, recovered panics, Combo, Routes, Any, AutoHead) with
+// their probe requests — appended to the router suites, whose routes would otherwise all be registered by bare
+// Route calls: a route declared inside a group, or after a group whose callback panicked, must be dispatched and
+// validated like any other
+func genDslSlice(r *rand.Rand, emit Emit, n int) {
+	g := &dGen{r: r, mode: "m"}
+	for i := 0; i < n; i++ {
+		g.mode, g.next = "m", 0
+		prog := g.block(0, 0, dPath{}, 1+r.Intn(5))
+		dEmitSession(emit, "m", r.Intn(2), prog)
+	}
+}
+
 func genDsl(r *rand.Rand, tier string, emit Emit) {
 	g := &dGen{r: r, mode: "m"}
 	nAtoms := len(dAtoms(g))
